@@ -408,7 +408,39 @@ pub fn model_with_companion(spec: &FileSpec) -> io::Result<(Model, Option<(Kind,
 }
 
 /// The careful-user write protocol of each kind (DESIGN.md §12) against any sink.
+thread_local! {
+    /// C14 only: write SAM / SAM.gz / BAM / raw BAM through the noodles-util facade writer
+    static FACADE_WRITER: std::cell::Cell<bool> = const { std::cell::Cell::new(false) };
+}
+
+pub fn set_facade_writer(on: bool) {
+    FACADE_WRITER.with(|f| f.set(on));
+}
+
+pub fn facade_writer_kind(kind: Kind) -> bool {
+    matches!(kind, Kind::Sam | Kind::SamGz | Kind::Bam | Kind::BamRaw)
+}
+
+/// Component name of the writer protocol in use for this kind.
+pub fn writer_name(kind: Kind) -> String {
+    if FACADE_WRITER.with(|f| f.get()) && facade_writer_kind(kind) {
+        format!("{}:util-facade-writer", kind.name())
+    } else {
+        format!("{}:writer", kind.name())
+    }
+}
+
 pub fn write_to<W: Write>(kind: Kind, model: &Model, w: W) -> io::Result<()> {
+    if FACADE_WRITER.with(|f| f.get()) {
+        use noodles_util::alignment::io::Format;
+        match (kind, model) {
+            (Kind::Sam, Model::Align { parsed, .. }) => return align::write_util_alignment(w, parsed, Format::Sam, false),
+            (Kind::SamGz, Model::Align { parsed, .. }) => return align::write_util_alignment(w, parsed, Format::Sam, true),
+            (Kind::Bam, Model::Align { parsed, .. }) => return align::write_util_alignment(w, parsed, Format::Bam, true),
+            (Kind::BamRaw, Model::Align { parsed, .. }) => return align::write_util_alignment(w, parsed, Format::Bam, false),
+            _ => {}
+        }
+    }
     match (kind, model) {
         (Kind::Bgzf, Model::Bytes { payload, cuts }) => {
             let mut w = noodles_bgzf::io::Writer::new(w);
